@@ -39,6 +39,17 @@ func c12(c *Ctx) {
 		}
 	}
 
+	c.R.Rule("R12.6", "every reconcile of a live Composition looks at the stored history", 1,
+		"a reconcile that reports success from remembered state (a memo of the last content, a cache) skips the renumbering or creation a rejected or lost write still owes: the current content's revision stays below a newer number")
+	if rec != nil {
+		var gone []cfgx.Edge
+		for _, w := range calls(rec, xprt+"meta.WasDeleted") {
+			t, _ := cfgx.CallCondEdges(w)
+			gone = append(gone, t...)
+		}
+		c.noSuccessBefore(rec, calls(rec, clientList), gone, load.FuncName(rec)+": success only after List", "every success return lies behind the List of the Composition's revisions (or the Composition is being deleted)", "Reconcile can return success without listing the Composition's revisions: the history is not examined")
+	}
+
 	c.R.Rule("R12.1", "revisions are append-only except the number", 5, "an existing revision's content would be edited, or a revision created with content other than the Composition's")
 	if rec != nil && listObj != nil {
 		n := 0
